@@ -5,10 +5,10 @@ from proxygen import *  # noqa
 from vncdotool import client as vclient
 
 ID = "C17"
-PROOF_MODULES = ["VncProofs.C17", "VncProofs.Framing"]
+PROOF_MODULES = ["VncProofs.C17", "VncProofs.Framing", "VncProofs.Forever"]
 THEOREMS = ["Vnc.C16_progress", "Vnc.C16_no_spin", "Vnc.C17_chunk_independent", "Vnc.C17_chunkings", "Vnc.C17_prompt", "Vnc.C17_message", "Vnc.C17_messages",
             "Vnc.C17_handshake", "Vnc.C17_session", "Vnc.C17_record_key", "Vnc.C17_record_pointer", "Vnc.C17_clicks", "Vnc.C17_record_other", "Vnc.C17_fmt",
-            "Vnc.C17_key_token", "Vnc.C16_type_len", "Vnc.proxy_type_len"]
+            "Vnc.C17_key_token", "Vnc.C16_type_len", "Vnc.proxy_type_len", "Vnc.Forever_own_script", "Vnc.Forever_names_unique", "Vnc.Forever_closed_final", "Vnc.Forever_name_second", "Vnc.Forever_old_loses"]
 TRUSTED = [
     "Lean 4.33 kernel; standard axioms only",
     "VncModel/Proxy.lean (RFBServer as a buffering machine that consumes the type byte first - observationally the same as the Python handler that waits without consuming - and the recorder recStep) is tied to loggingproxy.py by this correspondence run: every recorder call, per chunk",
